@@ -8,7 +8,8 @@ using namespace vf;
 namespace {
 const uint8_t SIG[] = { '"', '\\', '/', '*', ' ', '\t', '\n', 'a', '1', '{', ':', ',', '\r' };
 const char* GAPS[] = { "", " ", "\t\r\n", "//c\n", "/*c*/", "/* \" */", "// \"\n", " /**/ ", "/***/", "/* * / */", "//\n", "/*\n*/ ",
-    "//c\r,1\n" /* a carriage return does not end a line comment */, "/*\r//*/", "//c\\\n" /* a backslash before the line feed does not continue the comment */ };
+    "//c\r,1\n" /* a carriage return does not end a line comment */, "/*\r//*/", "//c\\\n" /* a backslash before the line feed does not continue the comment */,
+    "//c\n/*c*/", "/*c*///c\n", "/*/c*/" /* the '/' behind the opening marker does not close the comment */, "/*//*/ //\n" };
 const int NGAPS = sizeof GAPS / sizeof *GAPS;
 const char* STRS[] = { "\"a\"", "\"a b\"", "\"\\\"\"", "\"\\\\\"", "\"a\\\\\"", "\"\\\\\\\"\"", "\"/*x*/\"", "\"//\"", "\" \"", "\"\\\\\\\\\"", "\"\\\"//\\\"\"", "\"\\u0041 \\n\"", "\"*/\"", "\"\xc3\xa9 x /*y*/\"", "\"\\\\\\\" x/\"", "\"a\x7f b\"",
     // literals longer than any block size a bulk copy might use, plain and with escapes late in the literal
@@ -125,7 +126,7 @@ struct XMinify : Engine {
     }
     std::string describe(const Case& c) override { return "\"" + printable(c.str().substr(0, 150)) + "\""; }
     void finish(std::map<std::string, std::string>& x) override {
-        x["rule"] = jstr("runs of each steering byte of every length 1..70 and around 128 / 256 / 1000 / 4097 in 11 contexts (incl. buffers that end inside a literal or comment); safety: every string over 13 steering bytes up to the length bound, in a buffer ending at a guard page and in one starting after a guard page; value: token lists of all trees <= 4 nodes x 18 string-literal variants with gaps filled from 15 whitespace/comment fillers "
+        x["rule"] = jstr("runs of each steering byte of every length 1..70 and around 128 / 256 / 1000 / 4097 in 11 contexts (incl. buffers that end inside a literal or comment); safety: every string over 13 steering bytes up to the length bound, in a buffer ending at a guard page and in one starting after a guard page; value: token lists of all trees <= 4 nodes x 18 string-literal variants with gaps filled from 19 whitespace/comment fillers "
                          "(uniform, one gap, all combinations for short lists, thorough: two gaps); non-trivial = value-preservation cases");
     }
 };
